@@ -24,6 +24,15 @@ IsSubOf(defined, C, base) ==
 OwnTag(C, field) == LET cv == GetOpt(DcCfg(C), "classvars", <<>>) IN
                     IF PairsHas(cv, field) THEN PairsGet(cv, field) ELSE <<"#notag">>
 
+\* the tags under which a class answers at a discriminated position: its own tag -- or, with a variant_tagger_fn, whatever the
+\* function returns for the class (one tag, or a LIST of tags).  The model's two functions: "one" = "t_" + class name,
+\* "two" = ["t_" + class name, "u_" + class name]; they need no class variable, so every eligible class carries tags
+TagsOf(C, opts) ==
+  LET tg == GetOpt(opts, "tagger", "none") f == GetOpt(opts, "field", "#nofield") IN
+  IF tg = "one" THEN { <<"str", "t_" \o C[2]>> }
+  ELSE IF tg = "two" THEN { <<"str", "t_" \o C[2]>>, <<"str", "u_" \o C[2]>> }
+  ELSE IF OwnTag(C, f) = <<"#notag">> THEN {} ELSE { OwnTag(C, f) }
+
 \* depth-first pre-order over the subclass tree, children in definition order (cls.__subclasses__())
 RECURSIVE SubsDFS(_, _)
 SubsDFS(defined, base) ==
@@ -50,7 +59,7 @@ UnpackTagged(defined, Base, opts, cx, j) ==
   IF j[1] # "dict" THEN Err(<<"ValueError">>)
   ELSE IF ~PairsHas(j[2], S(f)) THEN Err(<<"MissingDiscr", f>>)
   ELSE LET t == PairsGet(j[2], S(f))
-           hits == { i \in DOMAIN el : OwnTag(el[i], f) = t } IN
+           hits == { i \in DOMAIN el : t \in TagsOf(el[i], opts) } IN
        IF hits = {} THEN Err(<<"NoVariant">>)
        ELSE LET C == el[CHOOSE i \in hits : \A k \in hits : k <= i] IN      \* later registration overwrites
             FromDictD(defined, C, cx, j)
@@ -68,5 +77,5 @@ UnpackDiscr(defined, Base, opts, cx, j) ==
 \* tags a lazily filled registry may legitimately hold
 EligibleTags(defined, Base, opts) ==
   LET el == Eligible(defined, Base, opts) f == GetOpt(opts, "field", "#nofield") IN
-  { OwnTag(el[i], f) : i \in DOMAIN el } \ { <<"#notag">> }
+  UNION { TagsOf(el[i], opts) : i \in DOMAIN el }
 =============================================================================
